@@ -526,14 +526,30 @@ def run_check(pid, tier, seed, mc_cfgs, profiles, thorough_profiles, assumptions
         batches.append((fam, ["--scripts", fpath], made[0]["cfg"]["nodes"]))
     nviol, total_events, total_runs, executed, skipped, panics = 0, 0, 0, 0, 0, 0
     first_trace = None
-    for bi, (bname, args, nodes) in enumerate(batches):
+
+    # the batches are independent (own script file, own trace, own TLC metadir): engine run + trace validation of
+    # several batches proceed side by side (VERIF_PAR, default 4); the verdicts are then read in batch order
+    def do_batch(item):
+        bi, (bname, args, nodes) = item
         tpath = os.path.join(wd, "trace-%s.ndjson" % bname)
         # the functional-test chain style (how blocks are handed to a node) is otherwise drawn from process-random
         # state: fix it per batch so that a replay file reproduces its run
         style = CONNECT_STYLES[(seed + bi) % len(CONNECT_STYLES)]
-        vlib.run_bin(bins["channet"], args + ["--seed", seed * 100 + bi, "--out", tpath], discard_stdout=True, timeout=3000,
-                     env={"LDK_TEST_CONNECT_STYLE": style})
-        summ = json.load(open(tpath + ".summary"))
+        try:
+            vlib.run_bin(bins["channet"], args + ["--seed", seed * 100 + bi, "--out", tpath], discard_stdout=True, timeout=3000,
+                         env={"LDK_TEST_CONNECT_STYLE": style})
+            summ = json.load(open(tpath + ".summary"))
+            total, fails = vlib.validate_trace(pid, "ChanTrace", "ChanTrace.cfg", tpath, timeout=2400, tag=bname)
+            return (tpath, style, summ, total, fails, None)
+        except BaseException as e:          # re-raised in batch order by the consumer below
+            return (tpath, style, None, 0, [], e)
+    from concurrent.futures import ThreadPoolExecutor
+    with ThreadPoolExecutor(max_workers=max(1, int(os.environ.get("VERIF_PAR", "4")))) as pool:
+        done = list(pool.map(do_batch, list(enumerate(batches))))
+    for bi, (bname, args, nodes) in enumerate(batches):
+        tpath, style, summ, total, fails, err = done[bi]
+        if err is not None:
+            raise err
         vlib.log("[channet] %s %s" % (bname, summ))
         if summ["setup_failures"]:
             # opening channels between honest nodes is honest traffic too: a panic there is a verdict about the code
@@ -547,7 +563,6 @@ def run_check(pid, tier, seed, mc_cfgs, profiles, thorough_profiles, assumptions
         executed += summ["executed"]
         skipped += summ["skipped"]
         panics += summ["panics"]
-        total, fails = vlib.validate_trace(pid, "ChanTrace", "ChanTrace.cfg", tpath, timeout=2400, tag=bname)
         total_events += total
         if first_trace is None and not fails:
             first_trace = tpath
